@@ -1,5 +1,6 @@
-(* C09 — lemmas: for ANY protocol tables whose terminal states have no outgoing pair, the service loop of
-   Model.v keeps every thread on the graph as long as the "busy" discipline holds. *)
+(* C09 — lemmas: for ANY protocol tables whose terminal states have no outgoing pair, the service machine of
+   Model.v keeps every thread on the graph, for every placement of faults, as long as the guards hold
+   (busy discipline; no abandon after a terminal state was announced). *)
 From Coq Require Import List NArith Arith PeanoNat Bool Lia.
 Import ListNotations.
 From VF Require Import gen.Gen_C09 C09.Model C09.Spec.
@@ -10,6 +11,22 @@ Proof.
   unfold memN. rewrite existsb_exists. split.
   - intros [y [Hy He]]. apply N.eqb_eq in He. subst. exact Hy.
   - intros H. exists x. split; [exact H|apply N.eqb_refl].
+Qed.
+
+Lemma last_default (l : list st) a d d' : last (a :: l) d = last (a :: l) d'.
+Proof.
+  revert a. induction l as [|b l IH]; intros a; [reflexivity|].
+  change (last (a :: b :: l) d) with (last (b :: l) d). change (last (a :: b :: l) d') with (last (b :: l) d'). apply IH.
+Qed.
+
+Lemma last_cons_ne (l : list st) a d : l <> [] -> last (a :: l) d = last l d.
+Proof. destruct l; [congruence|reflexivity]. Qed.
+
+Lemma last_in (l : list st) d : l <> [] -> In (last l d) l.
+Proof.
+  induction l as [|a l IH]; [congruence|]. intros _. destruct l as [|b l].
+  - left. reflexivity.
+  - right. apply IH. discriminate.
 Qed.
 
 Section Generic.
@@ -42,53 +59,27 @@ Section Generic.
   Proof. unfold cur, set; cbn. rewrite N.eqb_refl. reflexivity. Qed.
   Lemma cur_set_other s t t' x : t' <> t -> cur p (set s t x) t' = cur p s t'.
   Proof. intros H. unfold cur, set; cbn. destruct (N.eqb_spec t t'); [congruence|reflexivity]. Qed.
-  Lemma pending_set s t x : pending (set s t x) = pending s.
-  Proof. reflexivity. Qed.
 
-  Lemma last_in (l : list st) d : l <> [] -> In (last l d) l.
+  Lemma commit_pending s t pers : pending (commit s t pers) = pending s.
+  Proof. destruct pers; reflexivity. Qed.
+  Lemma commit_other s t pers t' : t' <> t -> cur p (commit s t pers) t' = cur p s t'.
+  Proof. intros H. destruct pers; [apply cur_set_other; exact H|reflexivity]. Qed.
+  Lemma commit_in s t pers ann : (forall y, pers = Some y -> In y ann) ->
+    In (cur p (commit s t pers) t) (cur p s t :: ann).
   Proof.
-    induction l as [|a l IH]; [congruence|]. intros _. destruct l as [|b l].
+    intros H. destruct pers as [y|]; cbn [commit].
+    - rewrite cur_set_same. right. apply H. reflexivity.
     - left. reflexivity.
-    - right. apply IH. discriminate.
   Qed.
+  Lemma commit_some s t y : cur p (commit s t (Some y)) t = y.
+  Proof. apply cur_set_same. Qed.
 
-  Lemma penult_in l x : penult l = Some x -> In x l.
-  Proof.
-    unfold penult. intros H. destruct (rev l) as [|a [|b r]] eqn:E; try discriminate.
-    injection H as <-. apply in_rev. rewrite E. right. left. reflexivity.
-  Qed.
-
-  Lemma commit_pending s t ann ok : pending (commit p s t ann ok) = pending s.
-  Proof.
-    unfold commit. destruct ok; [reflexivity|]. destruct (p_persist_each p); [|reflexivity].
-    destruct (penult ann); reflexivity.
-  Qed.
-
-  Lemma commit_other s t ann ok t' : t' <> t -> cur p (commit p s t ann ok) t' = cur p s t'.
-  Proof.
-    intros H. unfold commit. destruct ok; [apply cur_set_other; exact H|].
-    destruct (p_persist_each p); [|reflexivity]. destruct (penult ann); [apply cur_set_other; exact H|reflexivity].
-  Qed.
-
-  Lemma commit_in s t ann ok : In (cur p (commit p s t ann ok) t) (cur p s t :: ann).
-  Proof.
-    unfold commit. destruct ok.
-    - rewrite cur_set_same. unfold last_st. destruct ann as [|a r]; [left; reflexivity|].
-      right. apply last_in. discriminate.
-    - destruct (p_persist_each p); [|left; reflexivity].
-      destruct (penult ann) eqn:E; [|left; reflexivity].
-      rewrite cur_set_same. right. apply penult_in. exact E.
-  Qed.
+  Lemma cur_add_ev s e t : cur p (add_ev s e) t = cur p s t.
+  Proof. reflexivity. Qed.
 
   (* ---- paths ---- *)
   Lemma is_path_cons a b l : is_path p (a :: b :: l) = sedge p a b && is_path p (b :: l).
   Proof. reflexivity. Qed.
-
-  Lemma last_default (l : list st) a d d' : last (a :: l) d = last (a :: l) d'.
-  Proof.
-    revert a. induction l as [|b l IH]; intros a; [reflexivity|].
-    change (last (a :: b :: l) d) with (last (b :: l) d). change (last (a :: b :: l) d') with (last (b :: l) d'). apply IH.
-  Qed.
 
   Lemma is_path_app x l1 l2 :
     is_path p (x :: l1) = true -> is_path p (last (x :: l1) x :: l2) = true -> is_path p (x :: l1 ++ l2) = true.
@@ -102,94 +93,171 @@ Section Generic.
       rewrite (last_default l1 a a x). exact H2.
   Qed.
 
-  (* the chain announces a path of the implementation's relation, starting with the state it was entered at *)
-  Lemma chain_path k fuel : forall c tape ann ok tp x,
-    chain p k fuel c tape = (ann, ok, tp) -> sedge p x c = true -> is_path p (x :: ann) = true.
+  (* ---- handle's loop ---- *)
+  Definition chain_facts (c : st) (r : cres) : Prop :=
+    (forall x, sedge p x c = true -> is_path p (x :: r_ann r) = true) /\
+    (forall y, r_pers r = Some y -> In y (r_ann r)) /\
+    (forall n, r_halt r = Some n -> r_ok r = true /\ can p (last (r_ann r) c) n = true) /\
+    (p_persist_each p = true -> r_ok r = true -> r_pers r = Some (last (r_ann r) c)) /\
+    (r_ok r = true -> r_ann r <> []).
+
+  Lemma cfail_facts_one c pers tape np ix : (forall y, pers = Some y -> y = c) ->
+    chain_facts c (cfail [c] pers tape np ix).
   Proof.
-    induction fuel as [|f IH]; intros c tape ann ok tp x H Hx; cbn [chain] in H.
-    - injection H as <- _ _. reflexivity.
-    - destruct (exec1 p k c tape) as [[n|] tape'].
-      + destruct (N.eqb n 0).
-        * injection H as <- _ _. rewrite is_path_cons, Hx. reflexivity.
-        * destruct (can p c n) eqn:Hc.
-          -- destruct (chain p k f n tape') as [[ann' ok'] tp'] eqn:E. injection H as <- _ _.
-             rewrite is_path_cons, Hx. cbn [andb]. eapply IH; [exact E|apply can_sedge; exact Hc].
-          -- injection H as <- _ _. rewrite is_path_cons, Hx. reflexivity.
-      + injection H as <- _ _. rewrite is_path_cons, Hx. reflexivity.
+    intros Hp. unfold chain_facts, cfail; cbn [r_ann r_pers r_ok r_halt]. repeat split.
+    - intros x Hx. rewrite is_path_cons, Hx. reflexivity.
+    - intros y Hy. left. symmetry. apply Hp. exact Hy.
+    - discriminate.
+    - discriminate.
+    - discriminate.
+    - discriminate.
   Qed.
 
-  (* a chain run by the listener (inbound) that fails stops at a non-terminal state *)
-  Lemma O_S_neq (n : nat) : S n <> O.
-  Proof. discriminate. Qed.
-
-  Lemma chain_fail_last k : c_inbound k = true -> forall fuel c tape ann tp, fuel <> O ->
-    chain p k fuel c tape = (ann, false, tp) -> ann <> [] /\ terminal p (last ann c) = false.
+  Lemma chain_spec k : forall fuel c tape np ix, chain_facts c (chain p k fuel c tape np ix).
   Proof.
-    intros Hin. induction fuel as [|f IH]; intros c tape ann tp Hf H; [congruence|].
-    cbn [chain] in H. unfold exec1 in H. rewrite Hin, andb_true_r in H.
-    destruct (terminal p c) eqn:Ht; [cbn in H; discriminate|].
-    match type of H with (let (_, _) := ?X in _) = _ => destruct X as [[n|] tape'] end.
-    - destruct (N.eqb n 0); [discriminate|]. destruct (can p c n).
-      + destruct (chain p k f n tape') as [[ann' ok'] tp'] eqn:E. injection H as <- -> _.
-        split; [discriminate|]. destruct f as [|f'].
-        * cbn in E. injection E as <- _. exact Ht.
-        * destruct (IH n tape' ann' tp' (@O_S_neq f') E) as [Hne Hl].
-          destruct ann' as [|a r]; [congruence|].
-          change (last (c :: a :: r) c) with (last (a :: r) c).
-          rewrite (last_default r a c n). exact Hl.
-      + injection H as <- _. split; [discriminate|exact Ht].
-    - injection H as <- _. split; [discriminate|exact Ht].
+    induction fuel as [|f IH]; intros c tape np ix.
+    - cbn [chain]. unfold chain_facts, cfail; cbn [r_ann r_pers r_ok r_halt]. repeat split; try discriminate.
+    - cbn [chain]. destruct (exec1 p k c tape) as [[n|] tape'].
+      2:{ apply cfail_facts_one. discriminate. }
+      destruct (negb (N.eqb n 0) && negb (can p c n)) eqn:Hchk.
+      { apply cfail_facts_one. discriminate. }
+      (* the three ways to go on *)
+      assert (GO : forall np1 pc, (forall y, pc = Some y -> y = c) ->
+                (p_persist_each p = true -> pc = Some c) ->
+        chain_facts c
+          (if N.eqb n 0 then
+             {| r_ann := [c]; r_pers := pc; r_ok := true; r_halt := None; r_tape := tape'; r_np := np1; r_ix := S ix |}
+           else if post_action p c (c_v3 k) then
+             {| r_ann := [c]; r_pers := pc; r_ok := true; r_halt := Some n; r_tape := tape'; r_np := np1; r_ix := S ix |}
+           else
+             let r := chain p k f n tape' np1 (S ix) in
+             {| r_ann := c :: r_ann r; r_pers := match r_pers r with Some x => Some x | None => pc end;
+                r_ok := r_ok r; r_halt := r_halt r; r_tape := r_tape r; r_np := r_np r; r_ix := r_ix r |})).
+      { intros np1 pc Hpc Heach. destruct (N.eqb n 0) eqn:Hn0.
+        - unfold chain_facts; cbn [r_ann r_pers r_ok r_halt]. repeat split; try discriminate.
+          + intros x Hx. rewrite is_path_cons, Hx. reflexivity.
+          + intros y Hy. left. symmetry. apply Hpc. exact Hy.
+          + intros He _. cbn. apply Heach. exact He.
+        - cbn [negb andb] in Hchk. apply negb_false_iff in Hchk.
+          destruct (post_action p c (c_v3 k)).
+          + unfold chain_facts; cbn [r_ann r_pers r_ok r_halt]. repeat split; try discriminate.
+            * intros x Hx. rewrite is_path_cons, Hx. reflexivity.
+            * intros y Hy. left. symmetry. apply Hpc. exact Hy.
+            * injection H as <-. cbn. exact Hchk.
+            * intros He _. cbn. apply Heach. exact He.
+          + cbv zeta. destruct (IH n tape' np1 (S ix)) as [F1 [F2 [F3 [F4 F5]]]].
+            set (r := chain p k f n tape' np1 (S ix)) in *.
+            unfold chain_facts; cbn [r_ann r_pers r_ok r_halt]. repeat split.
+            * intros x Hx. rewrite is_path_cons, Hx. cbn [andb]. apply F1. apply can_sedge. exact Hchk.
+            * intros y Hy. destruct (r_pers r) as [z|] eqn:Ez.
+              -- injection Hy as <-. right. apply F2. reflexivity.
+              -- left. symmetry. apply Hpc. exact Hy.
+            * apply (F3 n0 H).
+            * destruct (F3 n0 H) as [Hok Hc]. pose proof (F5 Hok) as Hne.
+              rewrite last_cons_ne by exact Hne.
+              destruct (r_ann r) as [|a l]; [congruence|]. rewrite (last_default l a c n). exact Hc.
+            * intros He Hok. rewrite (F4 He Hok). pose proof (F5 Hok) as Hne.
+              rewrite last_cons_ne by exact Hne.
+              destruct (r_ann r) as [|a l]; [congruence|]. rewrite (last_default l a c n). reflexivity.
+            * discriminate. }
+      destruct (p_persist_each p) eqn:Heach.
+      + destruct (hit (f_put (c_f k)) np); [apply cfail_facts_one; discriminate|].
+        destruct (hit (f_act (c_f k)) ix); [apply cfail_facts_one; intros y Hy; injection Hy as <-; reflexivity|].
+        apply GO; [intros y Hy; injection Hy as <-; reflexivity|reflexivity].
+      + apply GO; [discriminate|discriminate].
   Qed.
 
-  (* ---- the listener ---- *)
-  Lemma listener_ok s e opt skip tape s2 ann :
-    listener p s e opt skip tape = (s2, ann) ->
-    terminal p (cur p s (e_t e)) = false ->
-    (skip = false -> can p (cur p s (e_t e)) (e_st e) = true) ->
-    is_path p (cur p s (e_t e) :: ann) = true /\ In (cur p s2 (e_t e)) (cur p s (e_t e) :: ann) /\
-    (forall t', t' <> e_t e -> cur p s2 t' = cur p s t') /\ pending s2 = pending s.
+  (* handle *)
+  Definition run_facts (c : st) (r : cres) : Prop :=
+    (forall x, sedge p x c = true -> is_path p (x :: r_ann r) = true) /\
+    (forall y, r_pers r = Some y -> In y (r_ann r)) /\
+    (forall n, r_halt r = Some n ->
+       r_ok r = true /\ can p (last (r_ann r) c) n = true /\ r_pers r = Some (last (r_ann r) c)).
+
+  Lemma run_spec k c tape np ix : run_facts c (run_chain p k c tape np ix).
   Proof.
-    intros H Hnt Hcan. unfold listener in H.
-    set (k := {| c_v3 := e_v3 e; c_inbound := true; c_opt := opt; c_flag := e_flag e |}) in *.
-    set (t := e_t e) in *.
-    destruct skip.
-    - (* straight to abandon *)
-      destruct (chain p k chain_fuel (p_abandon p) tape) as [[ann2 ok2] tp2] eqn:E2.
-      cbn [app] in H. injection H as <- <-.
-      split; [eapply chain_path; [exact E2|apply abandon_sedge; exact Hnt]|].
-      split; [apply commit_in|]. split; [intros t' Ht; apply commit_other; exact Ht|apply commit_pending].
-    - specialize (Hcan eq_refl).
-      destruct (chain p k chain_fuel (e_st e) tape) as [[ann1 ok1] tp1] eqn:E1.
-      assert (P1 : is_path p (cur p s t :: ann1) = true) by (eapply chain_path; [exact E1|apply can_sedge; exact Hcan]).
-      destruct ok1.
-      + injection H as <- <-. split; [exact P1|]. split; [exact (commit_in s t ann1 true)|].
-        split; [intros t' Ht; exact (commit_other s t ann1 true t' Ht)|exact (commit_pending s t ann1 true)].
-      + destruct (chain p k chain_fuel (p_abandon p) tp1) as [[ann2 ok2] tp2] eqn:E2.
-        injection H as <- <-.
-        destruct (chain_fail_last k eq_refl chain_fuel _ _ _ _ (@O_S_neq _) E1) as [Hne Hl].
-        change (if p_persist_each p then match penult ann1 with Some x => set s t x | None => s end else s)
-          with (commit p s t ann1 false).
-        assert (Hlast : last (cur p s t :: ann1) (cur p s t) = last ann1 (e_st e)).
-        { destruct ann1 as [|a r]; [congruence|]. change (last (cur p s t :: a :: r) (cur p s t)) with (last (a :: r) (cur p s t)).
-          apply last_default. }
+    unfold run_chain. destruct (chain_spec k chain_fuel c tape np ix) as [F1 [F2 [F3 [F4 F5]]]].
+    set (r := chain p k chain_fuel c tape np ix) in *.
+    destruct (p_persist_each p) eqn:Heach.
+    - repeat split; [exact F1|exact F2|apply (F3 n H)|apply (F3 n H)|].
+      apply F4; [reflexivity|apply (F3 n H)].
+    - destruct (r_ok r) eqn:Hok.
+      + assert (Hl : In (last (r_ann r) c) (r_ann r)) by (apply last_in; apply F5; reflexivity).
+        destruct (hit (f_put (c_f k)) (r_np r)).
+        * unfold run_facts, cfail; cbn [r_ann r_pers r_ok r_halt]. repeat split; try discriminate. exact F1.
+        * destruct (hit_range (f_act (c_f k)) ix (r_ix r - ix)).
+          -- unfold run_facts, cfail; cbn [r_ann r_pers r_ok r_halt]. repeat split; try discriminate; [exact F1|].
+             intros y Hy. injection Hy as <-. exact Hl.
+          -- unfold run_facts; cbn [r_ann r_pers r_ok r_halt]. repeat split; [exact F1| |apply (F3 n H)].
+             intros y Hy. injection Hy as <-. exact Hl.
+      + unfold run_facts, cfail; cbn [r_ann r_pers r_ok r_halt]. repeat split; try discriminate. exact F1.
+  Qed.
+
+  (* ---- process: handle + commit + event + abandon ---- *)
+  Definition new_event_ok (s s2 : sstate) (t : thid) : Prop :=
+    pending s2 = pending s \/
+    exists e, pending s2 = pending s ++ [e] /\ e_t e = t /\ cur p s2 t = e_src e /\ can p (e_src e) (e_st e) = true.
+
+  Lemma process_ok s t k m c skip ab tape s2 ann ok fat :
+    process p s t k m c skip ab tape = (s2, ann, ok, fat) ->
+    (skip = false -> sedge p (cur p s t) c = true) ->
+    terminal p (cur p s t) = false ->
+    fat = false ->
+    is_path p (cur p s t :: ann) = true /\ In (cur p s2 t) (cur p s t :: ann) /\
+    (forall t', t' <> t -> cur p s2 t' = cur p s t') /\ new_event_ok s s2 t.
+  Proof.
+    intros H Hedge Hnt Hfat. unfold process in H.
+    set (r1 := if skip then cfail [] None tape 0%nat 0%nat else run_chain p k c tape 0%nat 0%nat) in *.
+    assert (R1 : (is_path p (cur p s t :: r_ann r1) = true) /\ (forall y, r_pers r1 = Some y -> In y (r_ann r1)) /\
+                 (forall n, r_halt r1 = Some n -> r_ok r1 = true /\ can p (last (r_ann r1) c) n = true /\
+                                                  r_pers r1 = Some (last (r_ann r1) c))).
+    { subst r1. destruct skip.
+      - unfold cfail; cbn [r_ann r_pers r_ok r_halt]. repeat split; discriminate.
+      - destruct (run_spec k c tape 0%nat 0%nat) as [G1 [G2 G3]]. split; [apply G1; apply Hedge; reflexivity|].
+        split; [exact G2|exact G3]. }
+    destruct R1 as [P1 [M1 H1]].
+    set (s1 := commit s t (r_pers r1)) in *.
+    assert (Hin1 : In (cur p s1 t) (cur p s t :: r_ann r1)) by (apply commit_in; exact M1).
+    assert (Hoth1 : forall t', t' <> t -> cur p s1 t' = cur p s t') by (intros t' Ht; apply commit_other; exact Ht).
+    destruct (r_ok r1) eqn:Hok.
+    - injection H as <- <- _ _. split; [exact P1|].
+      destruct (r_halt r1) as [n|] eqn:Hh.
+      + destruct (H1 n eq_refl) as [_ [Hc Hp]]. rewrite cur_add_ev. split; [exact Hin1|].
+        split; [intros t' Ht; rewrite cur_add_ev; apply Hoth1; exact Ht|].
+        right. eexists. split; [unfold add_ev; cbn [pending]; unfold s1; rewrite commit_pending; reflexivity|].
+        cbn [e_t e_src e_st]. split; [reflexivity|]. split; [|exact Hc].
+        rewrite cur_add_ev. unfold s1. rewrite Hp. apply commit_some.
+      + split; [exact Hin1|]. split; [exact Hoth1|]. left. unfold s1. apply commit_pending.
+    - destruct (ab && p_abandons p).
+      + injection H as <- <- _ Hf. rewrite Hfat in Hf.
+        destruct (run_spec k (p_abandon p) (r_tape r1) (r_np r1) (r_ix r1)) as [G1 [G2 _]].
+        set (r2 := run_chain p k (p_abandon p) (r_tape r1) (r_np r1) (r_ix r1)) in *.
+        assert (Hl : terminal p (last (cur p s t :: r_ann r1) (cur p s t)) = false).
+        { destruct (r_ann r1) as [|a l] eqn:Ea.
+          - exact Hnt.
+          - change (last (cur p s t :: a :: l) (cur p s t)) with (last (a :: l) (cur p s t)).
+            destruct skip.
+            + subst r1. unfold cfail in Ea. cbn in Ea. discriminate.
+            + cbn [negb andb] in Hf. exact Hf. }
+        split; [apply is_path_app; [exact P1|apply G1; apply abandon_sedge; exact Hl]|].
         split.
-        * apply is_path_app; [exact P1|]. rewrite Hlast.
-          eapply chain_path; [exact E2|apply abandon_sedge; exact Hl].
-        * split.
-          -- pose proof (commit_in (commit p s t ann1 false) t ann2 ok2) as Hin.
-             destruct Hin as [Hin|Hin].
-             ++ rewrite <- Hin. pose proof (commit_in s t ann1 false) as H1. destruct H1 as [H1|H1].
-                ** left. exact H1.
-                ** right. apply in_or_app. left. exact H1.
-             ++ right. apply in_or_app. right. exact Hin.
-          -- split.
-             ++ intros t' Ht. rewrite commit_other by exact Ht. apply commit_other. exact Ht.
-             ++ rewrite !commit_pending. reflexivity.
+        * pose proof (commit_in s1 t (r_pers r2) (r_ann r2) G2) as Hin2. destruct Hin2 as [Hin2|Hin2].
+          -- rewrite <- Hin2. destruct Hin1 as [Hin1|Hin1]; [left; exact Hin1|right; apply in_or_app; left; exact Hin1].
+          -- right. apply in_or_app. right. exact Hin2.
+        * split; [intros t' Ht; rewrite commit_other by exact Ht; apply Hoth1; exact Ht|].
+          left. rewrite commit_pending. unfold s1. apply commit_pending.
+      + injection H as <- <- _ _. split; [exact P1|]. split; [exact Hin1|]. split; [exact Hoth1|].
+        left. unfold s1. apply commit_pending.
+  Qed.
+
+  Lemma process_noab_fat s t k m c skip tape : snd (process p s t k m c skip false tape) = false.
+  Proof.
+    unfold process. destruct (r_ok _); [reflexivity|]. cbn [andb]. reflexivity.
   Qed.
 
   (* ---- pending list helpers ---- *)
   Lemma nth_kill_same l i e : nth_error l i = Some e ->
-    nth_error (kill l i) i = Some {| e_t := e_t e; e_st := e_st e; e_msg := e_msg e; e_v3 := e_v3 e;
+    nth_error (kill l i) i = Some {| e_t := e_t e; e_src := e_src e; e_st := e_st e; e_msg := e_msg e; e_v3 := e_v3 e;
                                      e_flag := e_flag e; e_live := false |}.
   Proof.
     revert i. induction l as [|a l IH]; intros [|i] H; cbn in *; try discriminate.
@@ -211,123 +279,218 @@ Section Generic.
     congruence.
   Qed.
 
-  (* ---- the invariant of disciplined histories ---- *)
+  Lemma live_others_false : forall l i t, live_others l i t = false ->
+    forall j e, j <> i -> nth_error l j = Some e -> e_live e = true -> e_t e <> t.
+  Proof.
+    induction l as [|a l IH]; intros i t H j e Hj Hn Hl Heq; [destruct j; discriminate|].
+    destruct i as [|i]; cbn [live_others] in H.
+    - destruct j as [|j]; [congruence|]. cbn in Hn.
+      assert (X : existsb (fun e' => e_live e' && N.eqb (e_t e') t) l = true).
+      { apply existsb_exists. exists e. split; [eapply nth_error_In; exact Hn|]. rewrite Hl, Heq, N.eqb_refl. reflexivity. }
+      congruence.
+    - apply orb_false_iff in H. destruct H as [Ha Hr]. destruct j as [|j]; cbn in Hn.
+      + injection Hn as ->. rewrite Hl, Heq, N.eqb_refl in Ha. discriminate.
+      + apply (IH i t Hr j e); [congruence|exact Hn|exact Hl|exact Heq].
+  Qed.
+
+  (* ---- the invariant ---- *)
   Definition inv (s : sstate) : Prop :=
-    (forall i e, nth_error (pending s) i = Some e -> e_live e = true -> can p (cur p s (e_t e)) (e_st e) = true) /\
+    (forall i e, nth_error (pending s) i = Some e -> can p (e_src e) (e_st e) = true) /\
+    (forall i e, nth_error (pending s) i = Some e -> e_live e = true -> cur p s (e_t e) = e_src e) /\
     (forall i j e1 e2, nth_error (pending s) i = Some e1 -> nth_error (pending s) j = Some e2 ->
        e_live e1 = true -> e_live e2 = true -> e_t e1 = e_t e2 -> i = j).
 
   Lemma inv_s0 : inv s0.
-  Proof. split; intros; destruct i; discriminate. Qed.
+  Proof. repeat split; intros; destruct i; discriminate. Qed.
+
+  Definition killed (s : sstate) (i : nat) : sstate := {| persisted := persisted s; pending := kill (pending s) i |}.
+
+  Lemma inv_kill s i v : inv s -> nth_error (pending s) i = Some v -> inv (killed s i).
+  Proof.
+    intros [I0 [I1 I2]] Hn. unfold killed. repeat split; cbn [pending].
+    - intros j e Hj. destruct (Nat.eq_dec i j) as [<-|Hij].
+      + rewrite (nth_kill_same _ _ _ Hn) in Hj. injection Hj as <-. cbn. eapply I0; exact Hn.
+      + rewrite nth_kill_other in Hj by exact Hij. eapply I0; exact Hj.
+    - intros j e Hj Hl. change (cur p {| persisted := persisted s; pending := kill (pending s) i |}) with (cur p s).
+      destruct (Nat.eq_dec i j) as [<-|Hij].
+      + rewrite (nth_kill_same _ _ _ Hn) in Hj. injection Hj as <-. cbn in Hl. discriminate.
+      + rewrite nth_kill_other in Hj by exact Hij. eapply I1; eassumption.
+    - intros a b e1 e2 H1 H2 L1 L2 Ht.
+      destruct (Nat.eq_dec i a) as [<-|Hia].
+      { rewrite (nth_kill_same _ _ _ Hn) in H1. injection H1 as <-. cbn in L1. discriminate. }
+      destruct (Nat.eq_dec i b) as [<-|Hib].
+      { rewrite (nth_kill_same _ _ _ Hn) in H2. injection H2 as <-. cbn in L2. discriminate. }
+      rewrite nth_kill_other in H1 by exact Hia. rewrite nth_kill_other in H2 by exact Hib. eapply I2; eassumption.
+  Qed.
+
+  (* no live event of thread t is left, the step changed only t, and added at most one well-formed event on t *)
+  Lemma inv_extend s s2 t : inv s ->
+    (forall i e, nth_error (pending s) i = Some e -> e_live e = true -> e_t e <> t) ->
+    (forall t', t' <> t -> cur p s2 t' = cur p s t') -> new_event_ok s s2 t -> inv s2.
+  Proof.
+    intros [I0 [I1 I2]] NL Hoth [Hp|[e [Hp [Het [Hsrc Hcan]]]]].
+    - repeat split; rewrite Hp.
+      + exact I0.
+      + intros i e Hn Hl. rewrite Hoth by (eapply NL; eassumption). eapply I1; eassumption.
+      + exact I2.
+    - repeat split; rewrite Hp.
+      + intros i e0 Hn. destruct (Nat.lt_ge_cases i (length (pending s))) as [Hlt|Hge].
+        * rewrite nth_error_app1 in Hn by exact Hlt. eapply I0; exact Hn.
+        * rewrite nth_error_app2 in Hn by exact Hge. destruct (i - length (pending s))%nat as [|q]; cbn in Hn.
+          -- injection Hn as <-. exact Hcan.
+          -- destruct q; discriminate.
+      + intros i e0 Hn Hl. destruct (Nat.lt_ge_cases i (length (pending s))) as [Hlt|Hge].
+        * rewrite nth_error_app1 in Hn by exact Hlt. rewrite Hoth by (eapply NL; eassumption). eapply I1; eassumption.
+        * rewrite nth_error_app2 in Hn by exact Hge. destruct (i - length (pending s))%nat as [|q]; cbn in Hn.
+          -- injection Hn as <-. rewrite Het. exact Hsrc.
+          -- destruct q; discriminate.
+      + intros i j e1 e2 H1 H2 L1 L2 Ht.
+        destruct (Nat.lt_ge_cases i (length (pending s))) as [Hi|Hi];
+        destruct (Nat.lt_ge_cases j (length (pending s))) as [Hj|Hj].
+        * rewrite nth_error_app1 in H1 by exact Hi. rewrite nth_error_app1 in H2 by exact Hj. eapply I2; eassumption.
+        * rewrite nth_error_app1 in H1 by exact Hi. rewrite nth_error_app2 in H2 by exact Hj.
+          destruct (j - length (pending s))%nat as [|q]; cbn in H2; [|destruct q; discriminate].
+          injection H2 as <-. exfalso. eapply NL; [exact H1|exact L1|]. rewrite Ht. exact Het.
+        * rewrite nth_error_app2 in H1 by exact Hi. rewrite nth_error_app1 in H2 by exact Hj.
+          destruct (i - length (pending s))%nat as [|q]; cbn in H1; [|destruct q; discriminate].
+          injection H1 as <-. exfalso. eapply NL; [exact H2|exact L2|]. rewrite <- Ht. exact Het.
+        * rewrite nth_error_app2 in H1 by exact Hi. rewrite nth_error_app2 in H2 by exact Hj.
+          destruct (i - length (pending s))%nat as [|q] eqn:Ei; cbn in H1; [|destruct q; discriminate].
+          destruct (j - length (pending s))%nat as [|q] eqn:Ej; cbn in H2; [|destruct q; discriminate].
+          lia.
+  Qed.
+
+  Lemma step_ok_of s o t s' r ann :
+    op_thread s o = Some t -> step p s o = (s', (r, ann)) ->
+    is_path p (cur p s t :: ann) = true -> In (cur p s' t) (cur p s t :: ann) ->
+    (terminal p (cur p s t) = false \/ ann = []) -> step_ok p s o = true.
+  Proof.
+    intros Ho Hs P M T. unfold step_ok. rewrite Ho, Hs, P. apply memN_In in M. rewrite M. cbn [andb].
+    destruct T as [T| ->]; [rewrite T; reflexivity|apply orb_true_r].
+  Qed.
+
+  (* after killing the i-th (live, unique on its thread) event no live event of that thread is left *)
+  Lemma no_live_after_kill s i v : inv s -> nth_error (pending s) i = Some v -> e_live v = true ->
+    forall j e, nth_error (pending (killed s i)) j = Some e -> e_live e = true -> e_t e <> e_t v.
+  Proof.
+    intros [_ [_ I2]] Hn Hl j e Hj Lj Heq. unfold killed in Hj. cbn [pending] in Hj.
+    destruct (Nat.eq_dec i j) as [<-|Hij].
+    - rewrite (nth_kill_same _ _ _ Hn) in Hj. injection Hj as <-. cbn in Lj. discriminate.
+    - rewrite nth_kill_other in Hj by exact Hij. apply Hij. symmetry. eapply I2; eassumption.
+  Qed.
 
   Lemma step_inv s o : inv s -> disciplined_step p s o = true ->
     inv (fst (step p s o)) /\ step_ok p s o = true.
   Proof.
-    intros [I1 I2] Hd. destruct o as [outbound m v3 flag t tape|i opt tape|i tape].
+    intros Hinv Hd. pose proof Hinv as [I0 [I1 I2]].
+    destruct o as [outbound m v3 flag t f tape|i opt f tape|i f tape|i tape].
     - (* a message *)
-      unfold step_ok. cbn [op_thread]. unfold disciplined_step in Hd. cbn [step] in *.
-      destruct (target p m v3 outbound) as [x|].
-      2:{ cbn. split; [split; assumption|]. rewrite N.eqb_refl. cbn.
-          destruct (terminal p (cur p s t)); reflexivity. }
-      destruct (can p (cur p s t) x) eqn:Hc; cbn [negb].
-      2:{ cbn. split; [split; assumption|]. rewrite N.eqb_refl. cbn.
-          destruct (terminal p (cur p s t)); reflexivity. }
+      unfold disciplined_step in Hd.
+      destruct (step p s (Msg outbound m v3 flag t f tape)) as [s' [r ann]] eqn:ES. cbn [fst snd] in *.
+      pose proof ES as ES'. unfold step, step_full in ES'.
+      assert (Hquiet : (s', (r, ann)) = (s, (RReject, [])) ->
+                inv s' /\ step_ok p s (Msg outbound m v3 flag t f tape) = true).
+      { intros Hq. injection Hq as -> -> ->. split; [exact Hinv|].
+        eapply step_ok_of; [reflexivity|exact ES|reflexivity|left; reflexivity|right; reflexivity]. }
+      destruct (f_get f); [apply Hquiet; symmetry; exact ES'|].
+      destruct (target p m v3 outbound) as [x|]; [|apply Hquiet; symmetry; exact ES'].
+      destruct (can p (cur p s t) x) eqn:Hc; cbn [negb] in ES'; [|apply Hquiet; symmetry; exact ES'].
       assert (Hnt : terminal p (cur p s t) = false) by (eapply can_nonterminal; exact Hc).
-      assert (Hnl : has_live s t = false).
-      { destruct (has_live s t); [|reflexivity]. exfalso.
-        destruct (negb outbound && is_action p m v3).
-        - cbn [negb orb fst snd is_reject] in Hd. discriminate.
-        - destruct (chain p _ chain_fuel x tape) as [[a o'] tp'].
-          destruct o'; cbn [negb orb fst snd is_reject] in Hd; discriminate. }
       destruct (negb outbound && is_action p m v3).
-      + (* action event raised: nothing moves *)
-        cbn [fst snd]. split.
-        * split.
-          -- intros i e Hn Hl. change (cur p {| persisted := persisted s; pending := pending s ++ [_] |}) with (cur p s).
-             cbn [pending] in Hn. destruct (Nat.lt_ge_cases i (length (pending s))) as [Hlt|Hge].
-             ++ rewrite nth_error_app1 in Hn by exact Hlt. eapply I1; eassumption.
-             ++ rewrite nth_error_app2 in Hn by exact Hge. destruct (i - length (pending s))%nat as [|q]; cbn in Hn.
-                ** injection Hn as <-. cbn. exact Hc.
-                ** destruct q; discriminate.
-          -- intros i j e1 e2 H1 H2 L1 L2 Ht. cbn [pending] in H1, H2.
-             destruct (Nat.lt_ge_cases i (length (pending s))) as [Hi|Hi];
-             destruct (Nat.lt_ge_cases j (length (pending s))) as [Hj|Hj].
-             ++ rewrite nth_error_app1 in H1 by exact Hi. rewrite nth_error_app1 in H2 by exact Hj. eapply I2; eassumption.
-             ++ rewrite nth_error_app1 in H1 by exact Hi. rewrite nth_error_app2 in H2 by exact Hj.
-                destruct (j - length (pending s))%nat as [|q]; cbn in H2; [|destruct q; discriminate].
-                injection H2 as <-. cbn in Ht. exfalso. eapply has_live_false; eassumption.
-             ++ rewrite nth_error_app2 in H1 by exact Hi. rewrite nth_error_app1 in H2 by exact Hj.
-                destruct (i - length (pending s))%nat as [|q]; cbn in H1; [|destruct q; discriminate].
-                injection H1 as <-. cbn in Ht. exfalso. symmetry in Ht. eapply has_live_false; eassumption.
-             ++ rewrite nth_error_app2 in H1 by exact Hi. rewrite nth_error_app2 in H2 by exact Hj.
-                destruct (i - length (pending s))%nat as [|q] eqn:Ei; cbn in H1; [|destruct q; discriminate].
-                destruct (j - length (pending s))%nat as [|q] eqn:Ej; cbn in H2; [|destruct q; discriminate].
-                lia.
-        * change (cur p {| persisted := persisted s; pending := pending s ++ [_] |} t) with (cur p s t).
-          cbn. rewrite N.eqb_refl, Hnt. reflexivity.
-      + (* handled at once *)
-        destruct (chain p {| c_v3 := v3; c_inbound := negb outbound; c_opt := 0; c_flag := flag |} chain_fuel x tape)
-          as [[ann ok] tp] eqn:E.
-        cbn [fst snd]. split.
-        * split.
-          -- intros i e Hn Hl. rewrite commit_pending in Hn.
-             assert (e_t e <> t) by (eapply has_live_false; eassumption).
-             rewrite commit_other by assumption. eapply I1; eassumption.
-          -- intros i j e1 e2 H1 H2. rewrite commit_pending in H1, H2. eapply I2; eassumption.
-        * rewrite (chain_path _ _ _ _ _ _ _ _ E (can_sedge _ _ Hc)). rewrite Hnt. cbn [negb orb andb].
-          rewrite andb_true_r. apply memN_In. apply commit_in.
+      + destruct (f_tp f); [apply Hquiet; symmetry; exact ES'|].
+        cbn [fst] in ES'. injection ES' as <- <- <-.
+        cbn [is_reject] in Hd. rewrite orb_false_r in Hd. apply negb_true_iff in Hd.
+        split.
+        * eapply (inv_extend s _ t Hinv (has_live_false s t Hd)); [intros t' _; apply cur_add_ev|].
+          right. eexists. split; [reflexivity|]. cbn [e_t e_src e_st]. rewrite cur_add_ev. repeat split. exact Hc.
+        * eapply step_ok_of; [reflexivity|exact ES|reflexivity|left; reflexivity|left; exact Hnt].
+      + set (k := {| c_v3 := v3; c_inbound := negb outbound; c_opt := 0; c_flag := flag; c_f := f |}) in *.
+        destruct (process p s t k m x false false tape) as [[[s1 ann1] ok] fat] eqn:EP.
+        assert (Hfat : fat = false) by (pose proof (process_noab_fat s t k m x false tape) as X; rewrite EP in X; exact X).
+        destruct (process_ok s t k m x false false tape s1 ann1 ok fat EP (fun _ => can_sedge _ _ Hc) Hnt Hfat)
+          as [P [M [O NE]]].
+        cbn [fst] in ES'. injection ES' as <- Hr <-.
+        assert (Hnl : has_live s t = false).
+        { destruct (has_live s t); [|reflexivity]. cbn [negb orb] in Hd. rewrite <- Hr in Hd.
+          destruct (ok || p_async p); [destruct (Nat.ltb _ _)|]; cbn in Hd; discriminate. }
+        split.
+        * eapply (inv_extend s s1 t Hinv (has_live_false s t Hnl) O NE).
+        * eapply step_ok_of; [reflexivity|exact ES|exact P|exact M|left; exact Hnt].
     - (* Continue *)
-      unfold step_ok. cbn [op_thread step].
-      destruct (nth_error (pending s) i) as [v|] eqn:Hn; [|cbn; split; [split; assumption|reflexivity]].
-      destruct (e_live v) eqn:Hl; [|cbn; split; [split; assumption|reflexivity]].
-      set (s' := {| persisted := persisted s; pending := kill (pending s) i |}).
-      set (skip := existsb _ _).
-      destruct (listener p s' v opt skip tape) as [s2 ann] eqn:EL. cbn [fst snd].
-      pose proof (I1 _ _ Hn Hl) as Hcan.
+      unfold disciplined_step in Hd. apply negb_true_iff in Hd.
+      destruct (step p s (Continue i opt f tape)) as [s' [r ann]] eqn:ES. cbn [fst].
+      pose proof ES as ES'. unfold step, step_full in ES'. unfold step_fat, step_full in Hd.
+      destruct (nth_error (pending s) i) as [v|] eqn:Hn.
+      2:{ cbn [fst] in ES'. injection ES' as <- <- <-. split; [exact Hinv|].
+          unfold step_ok. cbn [op_thread]. rewrite Hn. reflexivity. }
+      destruct (e_live v) eqn:Hl.
+      2:{ cbn [fst] in ES'. injection ES' as <- <- <-. split; [exact Hinv|].
+          unfold step_ok. cbn [op_thread]. rewrite Hn, Hl. reflexivity. }
+      fold (killed s i) in *.
+      match type of Hd with context [process p _ _ ?k _ _ ?sk true tape] => set (k0 := k) in *; set (skip := sk) in * end.
+      destruct (process p (killed s i) (e_t v) k0 (e_msg v) (e_st v) skip true tape) as [[[s2 ann2] ok] fat] eqn:EP.
+      cbn [fst snd] in ES', Hd. injection ES' as <- <- <-. subst fat.
+      pose proof (I1 _ _ Hn Hl) as Hsrc. pose proof (I0 _ _ Hn) as Hcan. rewrite <- Hsrc in Hcan.
       assert (Hnt : terminal p (cur p s (e_t v)) = false) by (eapply can_nonterminal; exact Hcan).
-      destruct (listener_ok s' v opt skip tape s2 ann EL Hnt (fun _ => Hcan)) as [P [M [O Pe]]].
-      change (cur p s' (e_t v)) with (cur p s (e_t v)) in *.
+      change (cur p s) with (cur p (killed s i)) in Hcan, Hnt.
+      destruct (process_ok _ _ _ _ _ _ _ _ _ _ _ _ EP (fun _ => can_sedge _ _ Hcan) Hnt eq_refl) as [P [M [O NE]]].
       split.
-      + split.
-        * intros j e Hj Lj. rewrite Pe in Hj. cbn [pending s'] in Hj.
-          destruct (Nat.eq_dec i j) as [<-|Hij].
-          -- rewrite (nth_kill_same _ _ _ Hn) in Hj. injection Hj as <-. cbn in Lj. discriminate.
-          -- rewrite nth_kill_other in Hj by exact Hij.
-             assert (e_t e <> e_t v) by (intro Heq; apply Hij; eapply I2; try eassumption; symmetry; exact Heq).
-             rewrite O by assumption. change (cur p s' (e_t e)) with (cur p s (e_t e)). eapply I1; eassumption.
-        * intros a b e1 e2 H1 H2 L1 L2 Ht. rewrite Pe in H1, H2. cbn [pending s'] in H1, H2.
-          destruct (Nat.eq_dec i a) as [<-|Hia].
-          { rewrite (nth_kill_same _ _ _ Hn) in H1. injection H1 as <-. cbn in L1. discriminate. }
-          destruct (Nat.eq_dec i b) as [<-|Hib].
-          { rewrite (nth_kill_same _ _ _ Hn) in H2. injection H2 as <-. cbn in L2. discriminate. }
-          rewrite nth_kill_other in H1 by exact Hia. rewrite nth_kill_other in H2 by exact Hib. eapply I2; eassumption.
-      + rewrite P, Hnt. cbn [negb orb andb]. rewrite andb_true_r. apply memN_In. exact M.
+      + eapply (inv_extend (killed s i) s2 (e_t v) (inv_kill s i v Hinv Hn) (no_live_after_kill s i v Hinv Hn Hl) O NE).
+      + change (cur p (killed s i)) with (cur p s) in *.
+        eapply step_ok_of; [cbn [op_thread]; rewrite Hn, Hl; reflexivity|exact ES|exact P|exact M|left; exact Hnt].
     - (* Stop *)
-      unfold step_ok. cbn [op_thread step].
-      destruct (nth_error (pending s) i) as [v|] eqn:Hn; [|cbn; split; [split; assumption|reflexivity]].
-      destruct (e_live v) eqn:Hl; [|cbn; split; [split; assumption|reflexivity]].
-      set (s' := {| persisted := persisted s; pending := kill (pending s) i |}).
-      set (skip := negb _).
-      destruct (listener p s' v 0 skip tape) as [s2 ann] eqn:EL. cbn [fst snd].
-      pose proof (I1 _ _ Hn Hl) as Hcan.
+      unfold disciplined_step in Hd. apply negb_true_iff in Hd.
+      destruct (step p s (Stop i f tape)) as [s' [r ann]] eqn:ES. cbn [fst].
+      pose proof ES as ES'. unfold step, step_full in ES'. unfold step_fat, step_full in Hd.
+      destruct (nth_error (pending s) i) as [v|] eqn:Hn.
+      2:{ cbn [fst] in ES'. injection ES' as <- <- <-. split; [exact Hinv|].
+          unfold step_ok. cbn [op_thread]. rewrite Hn. reflexivity. }
+      destruct (e_live v) eqn:Hl.
+      2:{ cbn [fst] in ES'. injection ES' as <- <- <-. split; [exact Hinv|].
+          unfold step_ok. cbn [op_thread]. rewrite Hn, Hl. reflexivity. }
+      fold (killed s i) in *.
+      match type of Hd with context [process p _ _ ?k _ _ ?sk true tape] => set (k0 := k) in *; set (skip := sk) in * end.
+      destruct (process p (killed s i) (e_t v) k0 (e_msg v) (e_st v) skip true tape) as [[[s2 ann2] ok] fat] eqn:EP.
+      cbn [fst snd] in ES', Hd. injection ES' as <- <- <-. subst fat.
+      pose proof (I1 _ _ Hn Hl) as Hsrc. pose proof (I0 _ _ Hn) as Hcan. rewrite <- Hsrc in Hcan.
       assert (Hnt : terminal p (cur p s (e_t v)) = false) by (eapply can_nonterminal; exact Hcan).
-      destruct (listener_ok s' v 0 skip tape s2 ann EL Hnt (fun _ => Hcan)) as [P [M [O Pe]]].
-      change (cur p s' (e_t v)) with (cur p s (e_t v)) in *.
+      change (cur p s) with (cur p (killed s i)) in Hcan, Hnt.
+      destruct (process_ok _ _ _ _ _ _ _ _ _ _ _ _ EP (fun _ => can_sedge _ _ Hcan) Hnt eq_refl) as [P [M [O NE]]].
       split.
-      + split.
-        * intros j e Hj Lj. rewrite Pe in Hj. cbn [pending s'] in Hj.
-          destruct (Nat.eq_dec i j) as [<-|Hij].
-          -- rewrite (nth_kill_same _ _ _ Hn) in Hj. injection Hj as <-. cbn in Lj. discriminate.
-          -- rewrite nth_kill_other in Hj by exact Hij.
-             assert (e_t e <> e_t v) by (intro Heq; apply Hij; eapply I2; try eassumption; symmetry; exact Heq).
-             rewrite O by assumption. change (cur p s' (e_t e)) with (cur p s (e_t e)). eapply I1; eassumption.
-        * intros a b e1 e2 H1 H2 L1 L2 Ht. rewrite Pe in H1, H2. cbn [pending s'] in H1, H2.
-          destruct (Nat.eq_dec i a) as [<-|Hia].
-          { rewrite (nth_kill_same _ _ _ Hn) in H1. injection H1 as <-. cbn in L1. discriminate. }
-          destruct (Nat.eq_dec i b) as [<-|Hib].
-          { rewrite (nth_kill_same _ _ _ Hn) in H2. injection H2 as <-. cbn in L2. discriminate. }
-          rewrite nth_kill_other in H1 by exact Hia. rewrite nth_kill_other in H2 by exact Hib. eapply I2; eassumption.
-      + rewrite P, Hnt. cbn [negb orb andb]. rewrite andb_true_r. apply memN_In. exact M.
+      + eapply (inv_extend (killed s i) s2 (e_t v) (inv_kill s i v Hinv Hn) (no_live_after_kill s i v Hinv Hn Hl) O NE).
+      + change (cur p (killed s i)) with (cur p s) in *.
+        eapply step_ok_of; [cbn [op_thread]; rewrite Hn, Hl; reflexivity|exact ES|exact P|exact M|left; exact Hnt].
+    - (* Accept *)
+      unfold disciplined_step in Hd.
+      destruct (step p s (Accept i tape)) as [s' [r ann]] eqn:ES. cbn [fst snd] in *.
+      pose proof ES as ES'. unfold step, step_full in ES'.
+      destruct (nth_error (pending s) i) as [v|] eqn:Hn.
+      2:{ cbn [fst] in ES'. injection ES' as <- <- <-. split; [exact Hinv|].
+          unfold step_ok. cbn [op_thread]. rewrite Hn. reflexivity. }
+      destruct (N.eqb (cur p s (e_t v)) (e_src v)) eqn:Hg.
+      2:{ cbn [fst] in ES'. injection ES' as <- <- <-. split; [exact Hinv|].
+          eapply step_ok_of; [cbn [op_thread]; rewrite Hn; reflexivity|exact ES|reflexivity|left; reflexivity|right; reflexivity]. }
+      apply N.eqb_eq in Hg. fold (killed s i) in *.
+      match type of ES' with context [process p _ _ ?k _ _ false false tape] => set (k0 := k) in * end.
+      destruct (process p (killed s i) (e_t v) k0 (e_msg v) (e_st v) false false tape) as [[[s2 ann2] ok] fat] eqn:EP.
+      cbn [fst snd] in ES'. injection ES' as <- Hr <-.
+      assert (Hfat : fat = false)
+        by (pose proof (process_noab_fat (killed s i) (e_t v) k0 (e_msg v) (e_st v) false tape) as X; rewrite EP in X; exact X).
+      assert (Hlo : live_others (pending s) i (e_t v) = false).
+      { rewrite <- Hr in Hd. destruct ok; cbn [is_reject orb] in Hd; apply negb_true_iff in Hd; exact Hd. }
+      pose proof (I0 _ _ Hn) as Hcan. rewrite <- Hg in Hcan.
+      assert (Hnt : terminal p (cur p s (e_t v)) = false) by (eapply can_nonterminal; exact Hcan).
+      change (cur p s) with (cur p (killed s i)) in Hcan, Hnt.
+      destruct (process_ok _ _ _ _ _ _ _ _ _ _ _ _ EP (fun _ => can_sedge _ _ Hcan) Hnt Hfat) as [P [M [O NE]]].
+      split.
+      + eapply (inv_extend (killed s i) s2 (e_t v) (inv_kill s i v Hinv Hn)); [|exact O|exact NE].
+        intros j e Hj Lj. unfold killed in Hj. cbn [pending] in Hj.
+        destruct (Nat.eq_dec i j) as [<-|Hij].
+        * rewrite (nth_kill_same _ _ _ Hn) in Hj. injection Hj as <-. cbn in Lj. discriminate.
+        * rewrite nth_kill_other in Hj by exact Hij.
+          eapply (live_others_false _ _ _ Hlo j e); [congruence|exact Hj|exact Lj].
+      + change (cur p (killed s i)) with (cur p s) in *.
+        eapply step_ok_of; [cbn [op_thread]; rewrite Hn; reflexivity|exact ES|exact P|exact M|left; exact Hnt].
   Qed.
 
   Lemma run_steps_ok : forall ops s, inv s -> disciplined p s ops = true -> all_steps_ok p s ops = true.
@@ -347,40 +510,52 @@ Section Generic.
   Qed.
 
   (* ---- a step touches one thread only ---- *)
-  Lemma listener_other s e opt skip tape t' :
-    t' <> e_t e -> cur p (fst (listener p s e opt skip tape)) t' = cur p s t'.
+  Lemma process_other s t k m c skip ab tape t' :
+    t' <> t -> cur p (fst (fst (fst (process p s t k m c skip ab tape)))) t' = cur p s t'.
   Proof.
-    intros Ht. unfold listener.
-    set (k := {| c_v3 := e_v3 e; c_inbound := true; c_opt := opt; c_flag := e_flag e |}).
-    destruct skip.
-    - destruct (chain p k chain_fuel (p_abandon p) tape) as [[a o] tp]. cbn [fst]. apply commit_other. exact Ht.
-    - destruct (chain p k chain_fuel (e_st e) tape) as [[a1 o1] tp1]. destruct o1.
-      + cbn [fst]. apply commit_other. exact Ht.
-      + destruct (chain p k chain_fuel (p_abandon p) tp1) as [[a2 o2] tp2]. cbn [fst].
-        rewrite commit_other by exact Ht. apply commit_other. exact Ht.
+    intros Ht. unfold process.
+    set (r1 := if skip then _ else _).
+    destruct (r_ok r1).
+    - cbn [fst]. destruct (r_halt r1); [rewrite cur_add_ev|]; apply commit_other; exact Ht.
+    - destruct (ab && p_abandons p); cbn [fst].
+      + rewrite commit_other by exact Ht. apply commit_other. exact Ht.
+      + apply commit_other. exact Ht.
   Qed.
 
   Lemma step_other s o t' :
     (forall t, op_thread s o = Some t -> t' <> t) -> cur p (fst (step p s o)) t' = cur p s t'.
   Proof.
-    intros H. destruct o as [outbound m v3 flag t tape|i opt tape|i tape]; cbn [step op_thread] in *.
-    - specialize (H t eq_refl). destruct (target p m v3 outbound) as [x|]; [|reflexivity].
+    intros H. unfold step, step_full.
+    destruct o as [outbound m v3 flag t f tape|i opt f tape|i f tape|i tape]; cbn [op_thread] in *.
+    - specialize (H t eq_refl). destruct (f_get f); [reflexivity|].
+      destruct (target p m v3 outbound) as [x|]; [|reflexivity].
       destruct (negb (can p (cur p s t) x)); [reflexivity|].
-      destruct (negb outbound && is_action p m v3); [reflexivity|].
-      destruct (chain p _ chain_fuel x tape) as [[a o] tp]. cbn [fst]. apply commit_other. exact H.
+      destruct (negb outbound && is_action p m v3); [destruct (f_tp f); reflexivity|].
+      match goal with |- context [process p s t ?k m x false false tape] =>
+        pose proof (process_other s t k m x false false tape t' H) as L;
+        destruct (process p s t k m x false false tape) as [[[s1 ann] ok] fat] end.
+      cbn [fst] in *. exact L.
     - destruct (nth_error (pending s) i) as [v|]; [|reflexivity]. destruct (e_live v); [|reflexivity].
       specialize (H (e_t v) eq_refl).
-      match goal with |- context [listener p ?s' v opt ?sk tape] =>
-        pose proof (listener_other s' v opt sk tape t' H) as L; destruct (listener p s' v opt sk tape) as [s2 ann] end.
-      cbn in *. exact L.
+      match goal with |- context [process p ?s' (e_t v) ?k (e_msg v) (e_st v) ?sk true tape] =>
+        pose proof (process_other s' (e_t v) k (e_msg v) (e_st v) sk true tape t' H) as L;
+        destruct (process p s' (e_t v) k (e_msg v) (e_st v) sk true tape) as [[[s2 ann] ok] fat] end.
+      cbn [fst] in *. exact L.
     - destruct (nth_error (pending s) i) as [v|]; [|reflexivity]. destruct (e_live v); [|reflexivity].
       specialize (H (e_t v) eq_refl).
-      match goal with |- context [listener p ?s' v 0 ?sk tape] =>
-        pose proof (listener_other s' v 0 sk tape t' H) as L; destruct (listener p s' v 0 sk tape) as [s2 ann] end.
-      cbn in *. exact L.
+      match goal with |- context [process p ?s' (e_t v) ?k (e_msg v) (e_st v) ?sk true tape] =>
+        pose proof (process_other s' (e_t v) k (e_msg v) (e_st v) sk true tape t' H) as L;
+        destruct (process p s' (e_t v) k (e_msg v) (e_st v) sk true tape) as [[[s2 ann] ok] fat] end.
+      cbn [fst] in *. exact L.
+    - destruct (nth_error (pending s) i) as [v|]; [|reflexivity]. specialize (H (e_t v) eq_refl).
+      destruct (N.eqb (cur p s (e_t v)) (e_src v)); [|reflexivity].
+      match goal with |- context [process p ?s' (e_t v) ?k (e_msg v) (e_st v) false false tape] =>
+        pose proof (process_other s' (e_t v) k (e_msg v) (e_st v) false false tape t' H) as L;
+        destruct (process p s' (e_t v) k (e_msg v) (e_st v) false false tape) as [[[s2 ann] ok] fat] end.
+      cbn [fst] in *. exact L.
   Qed.
 
-  (* ---- terminal states are never left (disciplined histories) ---- *)
+  (* ---- terminal states are never left (guarded histories) ---- *)
   Lemma step_terminal s o t : inv s -> disciplined_step p s o = true ->
     terminal p (cur p s t) = true -> cur p (fst (step p s o)) t = cur p s t.
   Proof.
@@ -428,36 +603,53 @@ Section Generic.
   Qed.
 End Generic.
 
-(* ---- statements that need no discipline and no hypothesis on the tables ---- *)
+(* ---- statements that need no guard and no hypothesis on the tables ---- *)
 Lemma reject_preserves_gen p s o :
   fst (snd (step p s o)) = RReject -> fst (step p s o) = s /\ snd (snd (step p s o)) = [].
 Proof.
-  destruct o as [outbound m v3 flag t tape|i opt tape|i tape]; cbn [step].
-  - destruct (target p m v3 outbound) as [x|]; [|intros _; split; reflexivity].
+  unfold step, step_full. destruct o as [outbound m v3 flag t f tape|i opt f tape|i f tape|i tape].
+  - destruct (f_get f); [intros _; split; reflexivity|].
+    destruct (target p m v3 outbound) as [x|]; [|intros _; split; reflexivity].
     destruct (negb (can p (cur p s t) x)); [intros _; split; reflexivity|].
-    destruct (negb outbound && is_action p m v3); [cbn; discriminate|].
-    destruct (chain p _ chain_fuel x tape) as [[a o] tp]. cbn. destruct o; discriminate.
+    destruct (negb outbound && is_action p m v3).
+    + destruct (f_tp f); [intros _; split; reflexivity|cbn; discriminate].
+    + destruct (process p s t _ m x false false tape) as [[[s1 ann] ok] fat]. cbn [fst snd].
+      destruct (ok || p_async p); [destruct (Nat.ltb _ _)|]; discriminate.
   - destruct (nth_error (pending s) i) as [v|]; [|cbn; discriminate]. destruct (e_live v); [|cbn; discriminate].
-    destruct (listener p _ v opt _ tape) as [s2 ann]. cbn. discriminate.
+    destruct (process p _ (e_t v) _ (e_msg v) (e_st v) _ true tape) as [[[s2 ann] ok] fat]. cbn. discriminate.
   - destruct (nth_error (pending s) i) as [v|]; [|cbn; discriminate]. destruct (e_live v); [|cbn; discriminate].
-    destruct (listener p _ v 0 _ tape) as [s2 ann]. cbn. discriminate.
+    destruct (process p _ (e_t v) _ (e_msg v) (e_st v) _ true tape) as [[[s2 ann] ok] fat]. cbn. discriminate.
+  - destruct (nth_error (pending s) i) as [v|]; [|cbn; discriminate].
+    destruct (N.eqb (cur p s (e_t v)) (e_src v)); [|intros _; split; reflexivity].
+    destruct (process p _ (e_t v) _ (e_msg v) (e_st v) false false tape) as [[[s2 ann] ok] fat]. cbn [fst snd].
+    destruct ok; discriminate.
 Qed.
 
-Lemma disallowed_rejected_gen p s outbound m v3 flag t tape :
+Lemma disallowed_rejected_gen p s outbound m v3 flag t f tape :
   match target p m v3 outbound with
   | Some x => can p (cur p s t) x = false
   | None => True
-  end -> step p s (Msg outbound m v3 flag t tape) = (s, (RReject, [])).
+  end -> step p s (Msg outbound m v3 flag t f tape) = (s, (RReject, [])).
 Proof.
-  cbn [step]. destruct (target p m v3 outbound) as [x|]; [|reflexivity]. intros ->. reflexivity.
+  unfold step, step_full. destruct (f_get f); [reflexivity|].
+  destruct (target p m v3 outbound) as [x|]; [|reflexivity]. intros ->. reflexivity.
 Qed.
 
-Lemma accepted_allowed_gen p s outbound m v3 flag t tape :
-  fst (snd (step p s (Msg outbound m v3 flag t tape))) <> RReject ->
+Lemma accepted_allowed_gen p s outbound m v3 flag t f tape :
+  fst (snd (step p s (Msg outbound m v3 flag t f tape))) <> RReject ->
   exists x, target p m v3 outbound = Some x /\ can p (cur p s t) x = true.
 Proof.
-  cbn [step]. destruct (target p m v3 outbound) as [x|]; [|cbn; congruence].
+  unfold step, step_full. destruct (f_get f); [cbn; congruence|].
+  destruct (target p m v3 outbound) as [x|]; [|cbn; congruence].
   destruct (can p (cur p s t) x) eqn:Hc; [intros _; exists x; split; [reflexivity|exact Hc]|cbn; congruence].
+Qed.
+
+(* a late / duplicated API decision is refused unless the thread is still in the state the event was raised in *)
+Lemma accept_guard_gen p s i tape v :
+  nth_error (pending s) i = Some v -> cur p s (e_t v) <> e_src v -> step p s (Accept i tape) = (s, (RReject, [])).
+Proof.
+  intros Hn Hne. unfold step, step_full. rewrite Hn.
+  destruct (N.eqb_spec (cur p s (e_t v)) (e_src v)); [congruence|reflexivity].
 Qed.
 
 (* the machine's relation is inside the published one whenever the generated pairs are *)
